@@ -54,6 +54,8 @@ def fragOp (tbl : List (String × DG)) (ws : List String) : Option (DG × Nat ×
     let off ← off.toNat?; let len ← len.toNat?; let ttl ← ttl.toNat?
     if off % 8 != 0 || off > 65528 || len > 65535 then none else
     let p := mkFragPkt d off len (mf == "1") ttl
+    -- the fragment itself must fit the 16-bit total length of its own header
+    if hdrSize p.hdr + (slice d.payload off len).length > 65535 then none else
     if mf == "1" || off != 0 || p.inner.isNone then some (d, off, len, mf == "1", ttl, some p) else
     -- offset 0 without more-fragments: not a fragment, the parser decodes the upper layer
     match upperParseConcrete d.hdr.proto p.inner.bytes with
@@ -67,6 +69,7 @@ def wholeOp (tbl : List (String × DG)) (ws : List String) : Option (Option Pkt)
   | [tag, ttl, _eth] => do
     let d ← findTag tbl tag
     let ttl ← ttl.toNat?
+    if hdrSize d.hdr + d.payload.length > 65535 then none else
     if d.payload.isEmpty then some (some { hasIP := true, hdr := { d.hdr with ttl := ttl }, inner := .none }) else
     match upperParseConcrete d.hdr.proto d.payload with
     | none => some none
